@@ -806,7 +806,7 @@ func (m *MutableOverlayWorld) Traverse(id b6.FeatureID) b6.Segments {
 	for ss.Next() {
 		s := ss.Segment()
 		if feature := m.features.FindFeatureByID(s.Feature.FeatureID()); feature == nil {
-			segments = append(segments, s)
+			segments = append(segments, m.tags.WrapSegment(s))
 		}
 	}
 	segments = append(segments, traverse(id, m, m.references)...)
